@@ -218,21 +218,28 @@ class C20(core.Check):
                  "re-translated from scrollable.py on every run; binary64 thumb arithmetic modelled as exact rationals with a proved "
                  "round-to-nearest-even function, cross-checked in Coq against the kernel's primitive floats; extracted-model "
                  "correspondence on recorded wrapped-widget observations; independent slice/scrollbar oracle")
-    level_text = ("Proved in Coq, for every state, every wrapped-widget behaviour (any canvas size, cursor, key/mouse answers) and "
-                  "every history of renders/resizes, keys, mouse events and set_scrollpos(any integer), view height >= 1: a render that "
-                  "has to trim (content higher or wider than the view) never raises, leaves 0 <= p <= max(0, total - height), shows "
-                  "exactly child rows [p, p+height) (blank rows only when total < height, blank columns only when narrower), reports "
-                  "that p, and re-rendering is stable; the ScrollBar is drawn iff the content needs more rows than the view at the full "
-                  "width, the wrapped widget gets maxcol - bar width, the three bar parts are >= 0 and sum to the height (heights up to "
-                  "2^53), the thumb leaves the top iff p > 0 whenever it has room (and it has room whenever height >= 2, proved for heights "
-                  "up to 2^26), the top part is monotone in the position; keys and mouse events the wrapped widget handles never set a "
-                  "scroll action or move the position.  The binary64 operations in these theorems are an exact rational model with "
-                  "proved monotone round-to-nearest-even; its agreement with hardware doubles is a kernel-checked grid comparison with "
-                  "Coq primitive floats plus the correspondence with CPython on every run.  REFUTED (finding, recorded as known): when "
-                  "the content fits the view, render returns early without resetting _trim_top/_scroll_action, so get_scrollpos() can "
-                  "report a stale p outside [0, 0] (scroll_reports_p_refuted; the _partial theorem covers every render that trims).  "
-                  "Correspondence/oracle only: ListBox under ScrollBar (relative mode; bar shape and slice not judged beyond 'renders'), "
-                  "row translation of mouse clicks, cache invalidation.  Not covered: automove_cursor_on_scroll.")
+    level_text = ("Proved in Coq, for every state (hence after every history of renders/resizes, keys, mouse events and "
+                  "set_scrollpos(any integer)), every behaviour of the wrapped widget (any canvas size, cursor, key/mouse answers) and "
+                  "every view with height >= 1: render never raises; it shows exactly rows [p, p+height) of the wrapped widget's full "
+                  "rendering with 0 <= p <= max(0, total - height), blank rows only when total < height, blank columns only when the "
+                  "content is narrower, columns cut only when it is wider; whenever the render has to trim (content higher or wider than "
+                  "the view) the position reported afterwards is that p, the pending action is consumed, and re-rendering is stable; "
+                  "the translated _adjust_trim_top keeps 0 <= p <= max(0, rows - height) for every stored position/action/cursor.  "
+                  "ScrollBar over Scrollable, every state, heights < 2^53: drawn iff the content needs more rows than the view at the full "
+                  "width, never raises, the wrapped widget gets maxcol - bar width, top/thumb/bottom are >= 0 (thumb >= 1) and sum to the "
+                  "height, the thumb is off the top iff p > 0 and the thumb is shorter than the view - which it is whenever the view has "
+                  ">= 2 rows (heights up to 2^49; a 1-row view is filled by the thumb) - and the top part is monotone in p.  A key or mouse "
+                  "event the wrapped widget handles records no scroll action and moves nothing; unhandled wheel events move the stored "
+                  "position by one.  The binary64 operations in these theorems are an exact rational model whose round-to-nearest-even is "
+                  "PROVED monotone, exact on integers < 2^53, positivity preserving and within 2^-53 relative error (no IEEE law is "
+                  "assumed); that this model is what hardware doubles do is a kernel-checked grid comparison with Coq's primitive floats "
+                  "plus the exact correspondence with CPython on every run.  REFUTED (scroll_reports_p_refuted; genuine defect, recorded "
+                  "as a known finding): when the content fits the view, render returns before _adjust_trim_top, so get_scrollpos() can "
+                  "report a stale or never-clamped p outside [0, 0] although rows 0.. are shown (scroll_reports_p_partial covers every "
+                  "render that trims).  Correspondence/oracle only: row translation of mouse clicks, cache invalidation, the exact "
+                  "key->action table, ListBox under ScrollBar (relative mode: oracle checks 'no exception, well-formed bar when the "
+                  "content overflows'; no model, those cases add nothing to the correspondence count).  Not covered: "
+                  "automove_cursor_on_scroll.")
     level_note = ("Trusted: Coq kernel (vm_compute for the finite grids), py2v translator + the syntactic pre-pass in "
                   "tools/py2v/mods/scrollable.py, ExtrOcamlBasic extraction + OCaml driver, the hand model of render/keypress/"
                   "mouse_event/ScrollBar.render (tied by exact correspondence on every run), the claim that CPython float ops are "
